@@ -33,6 +33,7 @@ type Case struct {
 	G      int             `json:"g,omitempty"`
 	Flag   bool            `json:"flag,omitempty"` // -a (verify) / -doublecheck (repair)
 	Usage  []string        `json:"usage,omitempty"`
+	Base   string          `json:"base,omitempty"` // index base name (default "set")
 }
 
 var spC = []string{"c", "create", "C", "Create", "CREATE"}
@@ -109,9 +110,13 @@ func check(c Case) (msg, key string) {
 		r, _ := filepath.Rel(cwd, p)
 		return r
 	}
-	idxName := "set" + ext
+	baseName := c.Base
+	if baseName == "" {
+		baseName = "set"
+	}
+	idxName := baseName + ext
 	if c.State == "unknown-ext" {
-		idxName = "set.zip"
+		idxName = baseName + ".zip"
 	}
 	idx := sp(filepath.Join(dir, idxName))
 	var global []string
@@ -129,9 +134,9 @@ func check(c Case) (msg, key string) {
 	}
 	if c.State == "create-obstructed" {
 		// a directory sits where the first recovery file has to be written: create must not report success
-		ob := "set.vol00+01.par2"
+		ob := baseName + ".vol00+01.par2"
 		if c.Format == "par1" {
-			ob = "set.p01"
+			ob = baseName + ".p01"
 		}
 		os.MkdirAll(filepath.Join(dir, ob), 0o755)
 	}
@@ -249,6 +254,24 @@ func check(c Case) (msg, key string) {
 			os.Remove(filepath.Join(dir, v))
 		}
 		expectV, expectR = 2, 2
+	case "symlinked-volumes": // the recovery files live in a store directory and are symlinked beside the index
+		delete(state, names[0])
+		store := filepath.Join(root, "store")
+		os.MkdirAll(store, 0o755)
+		for _, v := range vols {
+			if os.Rename(filepath.Join(dir, v), filepath.Join(store, v)) == nil {
+				os.Symlink(filepath.Join(store, v), filepath.Join(dir, v))
+			}
+		}
+		expectV, expectR = 1, 0
+	case "all-lost": // every data file and every recovery file is gone, only the index is left
+		for _, n := range names {
+			delete(state, n)
+		}
+		for _, v := range vols {
+			os.Remove(filepath.Join(dir, v))
+		}
+		expectV, expectR = 2, 2
 	case "noparity-intact":
 		for _, v := range vols {
 			os.Remove(filepath.Join(dir, v))
@@ -266,7 +289,7 @@ func check(c Case) (msg, key string) {
 		// derive the expected status from the model instead of from how the state was built
 		// (generated files may share content, so "deleted" slices can still exist elsewhere)
 		avail := c.N
-		if c.State == "noparity-damaged" || c.State == "noparity-intact" {
+		if c.State == "noparity-damaged" || c.State == "noparity-intact" || c.State == "all-lost" {
 			avail = 0
 		}
 		allIntact := true
@@ -367,14 +390,16 @@ func check(c Case) (msg, key string) {
 	return "", ""
 }
 
-var states2 = []string{"intact", "dup-volume", "grown-16k", "repairable", "repairable-flip", "relocation", "length-only", "create-obstructed", "swap", "unrepairable", "noparity-damaged", "noparity-intact", "damaged-index", "missing-index", "unknown-ext"}
-var states1 = []string{"intact", "grown-16k", "repairable", "repairable-flip", "create-obstructed", "unrepairable", "noparity-damaged", "noparity-intact", "damaged-index", "missing-index", "unknown-ext"}
+var states2 = []string{"intact", "symlinked-volumes", "dup-volume", "grown-16k", "repairable", "repairable-flip", "relocation", "length-only", "create-obstructed", "swap", "unrepairable", "noparity-damaged", "all-lost", "noparity-intact", "damaged-index", "missing-index", "unknown-ext"}
+var states1 = []string{"intact", "symlinked-volumes", "grown-16k", "repairable", "repairable-flip", "create-obstructed", "unrepairable", "noparity-damaged", "all-lost", "noparity-intact", "damaged-index", "missing-index", "unknown-ext"}
 
 var usages = [][]string{{}, {"frobnicate"}, {"frobnicate", "set.par2"}, {"v"}, {"verify"}, {"r"}, {"c"}, {"c", "set.par2"}, {"create", "set.par"}, {"-bogus", "v", "set.par2"},
 	{"-g", "abc", "v", "set.par2"}, {"c", "-s", "xyz", "set.par2", "a"}, {"c", "-c", "1.5", "set.par2", "a"}, {"v", "-bogus", "set.par2"}, {"r", "-bogus", "set.par"}, {"-g"}, {"c", "-s"}}
 
+var idxBases = []string{"set", "set", "rate 5%", "my%20set", "a b", "x.y", "100%d", "q[1]"}
+
 func mk(format, state string, i int) Case {
-	c := Case{Format: format, State: state, Spell: i, Cwd: []string{"set", "parent", "unrelated"}[i%3], G: []int{0, 1, 3}[i%3], Flag: i%2 == 0}
+	c := Case{Format: format, State: state, Spell: i, Base: idxBases[i%len(idxBases)], Cwd: []string{"set", "parent", "unrelated"}[i%3], G: []int{0, 1, 3}[i%3], Flag: i%2 == 0}
 	if format == "par2" {
 		c.Slice = []int{4, 8, 64}[i%3]
 		c.Files = []scen.FileSpec{{Name: "a.dat", Size: 2*c.Slice + 1, Kind: "random", Seed: uint64(i + 1)}, {Name: "b b.bin", Size: c.Slice, Kind: "random", Seed: uint64(i + 2)}, {Name: "c.x", Size: 3 * c.Slice, Kind: "random", Seed: uint64(i + 3)}}
@@ -462,7 +487,7 @@ func TestCheck(t *testing.T) {
 	rapid.Check(t, func(rt *rapid.T) {
 		format := rapid.SampledFrom([]string{"par2", "par1"}).Draw(rt, "format")
 		c := Case{Format: format, Spell: rapid.IntRange(0, 4).Draw(rt, "spell"), Cwd: rapid.SampledFrom([]string{"set", "parent", "unrelated"}).Draw(rt, "cwd"),
-			G: rapid.SampledFrom([]int{0, 1, 2, 5}).Draw(rt, "g"), Flag: rapid.Bool().Draw(rt, "flag")}
+			G: rapid.SampledFrom([]int{0, 1, 2, 5}).Draw(rt, "g"), Flag: rapid.Bool().Draw(rt, "flag"), Base: rapid.SampledFrom(idxBases).Draw(rt, "base")}
 		if format == "par2" {
 			c.State = rapid.SampledFrom(states2).Draw(rt, "state")
 			c.Slice = rapid.SampledFrom([]int{4, 8, 16, 64, 256}).Draw(rt, "S")
